@@ -739,7 +739,19 @@ fn run_history(nitems: usize, ops: &[Op], st: &mut Stats) {
             (0..k)
                 .map(|_| {
                     next_id += 1;
-                    format!("item{}", next_id).into_bytes()
+                    // contents vary with the id: empty strings, bare dashes, escapes, non-UTF-8
+                    match next_id % 13 {
+                        3 | 8 => Vec::new(),
+                        5 => b"--".to_vec(),
+                        6 => b"-".to_vec(),
+                        10 => {
+                            let mut v = vec![0xFF];
+                            v.extend_from_slice(format!("{}", next_id).as_bytes());
+                            v
+                        }
+                        11 => format!("--item{}=", next_id).into_bytes(),
+                        _ => format!("item{}", next_id).into_bytes(),
+                    }
                 })
                 .collect()
         };
